@@ -36,7 +36,7 @@ def run(ctx):
             broken.append("coqchk rejects Props/%s.vo: %s" % (pid, cout[-800:]))
     if not proofs["ok"]:
         broken.append("proof obligations of Props/%s.v do not check: %s" % (pid, (proofs.get("broken_files") or proofs.get("nonstd_axioms") or proofs["log"][-800:])))
-    n = ctx.n(400, 6000)
+    n = ctx.n(400, 3000)
     hr = vf.go_harness(ctx, "index", "TestVerifC08$", HFILES, n, timeout=900 if ctx.tier == "quick" else 3000)
     recs = hr["records"]
     cases = [r for r in recs if r.get("kind") == "case"]
@@ -63,6 +63,17 @@ def run(ctx):
                 bad_sub.append(i)
             if code & 2:
                 bad_re.append(i)
+    vcases = [r for r in recs if r.get("kind") == "variants"]
+    vbad = 0
+    if vcases:
+        ev2 = vf.coq_eval_cases(ctx, pid, IMPORTS, "c08vcase", "c08v_mismatches", [c["coq"] for c in vcases], shard=10 ** 9, tag="_v")
+        if not ev2["ok"]:
+            broken.append("model evaluation (case variants) failed: " + ev2["log"][-1200:])
+        vbad = len(ev2["bad"])
+        for i in ev2["bad"][:5]:
+            broken.append("correspondence c08v_ok: generateCaseNgrams differs from the product of SimpleFold orbits on %s" % json.dumps(vcases[i].get("sample"), ensure_ascii=False))
+    elif hr["rc"] == 0:
+        broken.append("harness produced no case-variant records")
     for i in bad_sub[:10]:
         broken.append("correspondence c08_sub_ok: model of the Substring path (case-variant prefilter + ToLower verification) and indexData.Search disagree on %s"
                       % json.dumps(cases[i].get("sample"), ensure_ascii=False)[:1200])
@@ -87,7 +98,8 @@ def run(ctx):
              "(pattern, content); non-trivial = at least one of the two searches reports a match.",
         samples=[c.get("sample") for c in cases[:3]],
         traces_validated_against_impl=evaluated - len(set(bad_sub) | set(bad_re)) if ok else 0,
-        correspondence_mismatches=len(set(bad_sub) | set(bad_re)),
+        correspondence_mismatches=len(set(bad_sub) | set(bad_re)) + vbad,
+        case_variant_trigrams_validated=len(vcases) - vbad,
         oracle_failures=len(failures),
         oracle_failure_keys=sorted(set(f["key"] for f in failures))[:80],
         input_distribution=vf.histogram(cases, "class"),
